@@ -51,6 +51,15 @@ fn apply_tamper(root: &std::path::Path, path: &str, kind: &TamperKind, at: u32) 
         ((at as usize) * (len - 1) / 1000).min(len - 1)
     };
     match kind {
+        TamperKind::LossyTwin => {
+            if len == 0 {
+                return false;
+            }
+            match data.windows(3).position(|w| w == [0xEF, 0xBF, 0xBD]) {
+                Some(i) => data[i] = 0xF0,
+                None => data[pos] ^= 0x01,
+            }
+        }
         TamperKind::Flip => {
             if len == 0 {
                 return false;
@@ -285,6 +294,7 @@ fn hist_opts(mark_all: bool) -> GraphOpts {
         mark_all,
         sized: true,
         wide: false,
+        mega: false,
     }
 }
 
@@ -376,6 +386,7 @@ fn tamper_op(rng: &mut Rng, path: &str) -> Op {
         TamperKind::Append,
         TamperKind::Truncate,
         TamperKind::Remove,
+        TamperKind::LossyTwin,
     ];
     let at = *rng.pick(&[0u32, 0, 500, 1000, 1000, 137, 873]);
     Op::Tamper {
@@ -566,13 +577,29 @@ pub fn gen(prop: &str, seed: u64, index: u64, _tier: Tier) -> Case {
             });
         }
         "C09" => {
-            project = gen_project(&mut prng, &hist_opts(false));
+            let mut o9 = hist_opts(false);
+            o9.mega = true;
+            project = gen_project(&mut prng, &o9);
             let a = analyze(&project);
             let (inputs, recursive) = gen::gen_inputs(&mut prng, &a, false);
             let tn = !prng.chance(1, 6);
             // pre-state: a build, then a mix of edits / tampering / deletions
             ops.push(run_op(&mut rng, ModeS::Build, &inputs, recursive, tn, "build-0"));
             let n_dist = rng.below(4);
+            let sized_outs: Vec<String> = a
+                .sources
+                .iter()
+                .filter(|s| s.path.starts_with("sized"))
+                .map(|s| s.out.clone())
+                .collect();
+            if !sized_outs.is_empty() && rng.chance(1, 2) {
+                // same length, last byte changed: only a full comparison notices
+                ops.push(Op::Tamper {
+                    path: sized_outs[0].clone(),
+                    kind: TamperKind::Flip,
+                    at: *rng.pick(&[1000u32, 1000, 999, 990, 700]),
+                });
+            }
             for _ in 0..n_dist {
                 match rng.below(5) {
                     0 => {
@@ -824,6 +851,63 @@ pub fn run(case: &Case, ctx: &mut Ctx) -> CaseOutcome {
     // C10's write-set oracle is evaluated for C10 cases only (other properties stay independent)
     if prop == "C10" {
         oracle_c10(case, &h, ctx, &mut out, case_hash);
+        // the same operation once more through the real binary (OS-scheduled), verify and clean with
+        // the top-level -N flag in front of the subcommand, which must not change what they do
+        if case.index % 16 == 0 && out.violation.is_none() {
+            if let Some(r) = h.runs.last() {
+                if r.cfg.cwd.is_none() && !r.cfg.base_relative {
+                    tree::restore(&ctx.env.root, &r.before);
+                    tree::set_sentinel(&ctx.env.root);
+                    let before = tree::snapshot(&ctx.env.root);
+                    std::env::set_var("VERIF_CLI_STRAY_N", "1");
+                    let code = super::fault::run_cli(&ctx.env.root, &r.cfg);
+                    std::env::set_var("VERIF_CLI_STRAY_N", "0");
+                    if let Some(code) = code {
+                        let after = tree::snapshot(&ctx.env.root);
+                        ctx.stats.count(&format!("c10.cli_ops.{}", r.cfg.mode.name()));
+                        let a = analyze(&tree::to_project(&before));
+                        let gen = a.gen_all();
+                        let outs: BTreeSet<String> = a.sources.iter().map(|s| s.out.clone()).collect();
+                        for (p, ch) in tree::diff(&before, &after) {
+                            if !gen.contains(&p) {
+                                out.violate("C10", "wrote-outside-own-outputs", format!("[cli {} exit {code}] {ch:?} {p}", r.cfg.mode.name()));
+                            } else if r.cfg.mode == ModeS::Verify && outs.contains(&p) {
+                                out.violate("C10", "verify-touched-output", format!("[cli -N verify, exit {code}] {ch:?} output {p}"));
+                            } else if r.cfg.mode == ModeS::Clean && ch != Change::Deleted {
+                                out.violate("C10", "clean-created-or-modified", format!("[cli -N clean, exit {code}] {ch:?} {p}"));
+                            }
+                        }
+                    }
+                }
+            }
+        }
+    }
+    if prop == "C06" && out.violation.is_none() && case.index % 16 == 0 {
+        // verify through the real binary, with the stray -N flag: same verdict, outputs untouched
+        if let Some(r) = h.runs.iter().rev().find(|r| r.cfg.mode == ModeS::Verify) {
+            tree::restore(&ctx.env.root, &r.before);
+            tree::set_sentinel(&ctx.env.root);
+            let before = tree::snapshot(&ctx.env.root);
+            std::env::set_var("VERIF_CLI_STRAY_N", "1");
+            let code = super::fault::run_cli(&ctx.env.root, &r.cfg);
+            std::env::set_var("VERIF_CLI_STRAY_N", "0");
+            if let Some(code) = code {
+                let after = tree::snapshot(&ctx.env.root);
+                ctx.stats.count("c06.cli_verify_runs");
+                let a = analyze(&tree::to_project(&before));
+                let outs: BTreeSet<String> = a.sources.iter().map(|s| s.out.clone()).collect();
+                for (p, ch) in tree::diff(&before, &after) {
+                    if outs.contains(&p) {
+                        out.violate("C06", "verify-wrote-output", format!("[cli -N verify, exit {code}] {ch:?} output {p}"));
+                    }
+                }
+                match (&r.sim.verdict, code) {
+                    (Verdict::Ok, c) if c != 0 => out.violate("C06", "verify-rejects-fresh-output", format!("[cli -N verify] exit {c} where the library verify succeeds")),
+                    (Verdict::Err(_), 0) => out.violate("C06", "verify-accepts-stale-output", "[cli -N verify] exit 0 where the library verify fails".to_string()),
+                    _ => {}
+                }
+            }
+        }
     }
     if ctx.stats.samples.len() < 3 && case.index % 101 == 0 {
         ctx.stats.samples.push(serde_json::json!({
